@@ -113,18 +113,23 @@ def confused_values() -> list[Any]:
 _ENV_CLASSES: dict[tuple, Any] = {}
 
 
-def env_pair(templates: dict[str, str], cfg: tuple = (True, True, False, False)) -> Any:
+def env_pair(templates: dict[str, str], cfg: tuple = (True, True, False, False), shopify: bool = False) -> Any:
     """An environment for the oracle. cfg = (resource limits on, suppress blank
-    control-flow blocks, auto_escape, shorthand_indexes); see c02gen.CONFIGS."""
+    control-flow blocks, auto_escape, shorthand_indexes); see c02gen.CONFIGS.
+    shopify: liquid2.shopify.Environment (tablerow and the extra filters)."""
     from liquid2 import DictLoader, Environment
 
     limits, suppress, esc = cfg[:3]
     shorthand = bool(cfg[3]) if len(cfg) > 3 else False
     cfg = (limits, suppress, esc, shorthand)
-    key = (limits, suppress, shorthand)
+    key = (limits, suppress, shorthand, shopify)
     if key not in _ENV_CLASSES:
+        base: Any = Environment
+        if shopify:
+            import liquid2.shopify
+            base = liquid2.shopify.Environment
         if limits:
-            class E(Environment):
+            class E(base):  # type: ignore[misc,valid-type]
                 loop_iteration_limit = 3000
                 output_stream_limit = 300_000 if suppress else 300
                 context_depth_limit = 12
@@ -132,7 +137,7 @@ def env_pair(templates: dict[str, str], cfg: tuple = (True, True, False, False))
                 suppress_blank_control_flow_blocks = suppress
                 shorthand_indexes = shorthand
         else:
-            class E(Environment):  # type: ignore[no-redef]
+            class E(base):  # type: ignore[no-redef,misc,valid-type]
                 loop_iteration_limit = None
                 output_stream_limit = None
                 context_depth_limit = 30
@@ -142,6 +147,7 @@ def env_pair(templates: dict[str, str], cfg: tuple = (True, True, False, False))
         _ENV_CLASSES[key] = E
     env = _ENV_CLASSES[key](loader=DictLoader(templates), auto_escape=esc)
     env._verif_cfg = cfg
+    env._verif_shopify = shopify
     return env
 
 
@@ -225,6 +231,7 @@ def run_one(chk: C.Check, env: Any, src: str, data: dict[str, Any], stats: dict[
     with_context = (k // len(_API_SHAPES)) % 3 == 2
     replay = dict(replay, config={"limits": cfg[0], "suppress_blank_control_flow_blocks": cfg[1], "auto_escape": cfg[2],
                                   "shorthand_indexes": cfg[3]},
+                  environment="liquid2.shopify.Environment" if getattr(env, "_verif_shopify", False) else "liquid2.Environment",
                   api={"from_string": shape_name,
                        "render": "render_with_context(RenderContext(template, global_data=data), StringIO())"
                        if with_context else "render(**data)"})
@@ -435,11 +442,13 @@ def run_oracles(chk: C.Check, r: Any, stats: dict[str, int]) -> None:
                 t.get("data") or {}, stats, {"source": t["template"], "data": repr(t.get("data"))[:600]})
 
     # ---- (d2) every expression form in every argument position of every tag
-    cfg_envs = {cfg: env_pair(G2.EXPR_TEMPLATES, cfg) for cfg in G2.CONFIGS}
+    cfg_envs = {(cfg, sp): env_pair(G2.EXPR_TEMPLATES, cfg, sp) for cfg in G2.CONFIGS for sp in (False, True)}
     for n, (src, tpl, data) in enumerate(G2.expression_cases(r, chk.tier)):
         stats["expression_form_cases"] += 1
-        # the configuration rotates with the form and the hole: every hole meets every configuration
-        run_one(chk, cfg_envs[G2.CONFIGS[(n + n // len(G2.EXPR_FORMS)) % len(G2.CONFIGS)]], src, data, stats,
+        # the configuration rotates with the form and the hole: every hole meets every configuration;
+        # every third case (and every tablerow hole) runs in the Shopify environment
+        run_one(chk, cfg_envs[(G2.CONFIGS[(n + n // len(G2.EXPR_FORMS)) % len(G2.CONFIGS)], n % 3 == 0 or "tablerow" in src)],
+                src, data, stats,
                 {"source": src, "templates": tpl, "data": "harness/c02gen.py EXPR_DATA", "stream": "expression forms"})
     # ---- (d2b) bracket-rooted and shorthand-index paths in every hole, shorthand_indexes on
     for sup in (True, False):
@@ -475,11 +484,18 @@ def run_oracles(chk: C.Check, r: Any, stats: dict[str, int]) -> None:
 
     # ---- (d7) data of every shape in every argument position of every filter and tag
     denv_names = sorted(env_pair({}).filters)
-    denvs = {cfg: env_pair(G2.EXPR_TEMPLATES, cfg) for cfg in G2.CONFIGS}
+    denv_names = sorted(set(denv_names) | set(env_pair({}, shopify=True).filters))
+    denvs = {(cfg, sp): env_pair(G2.EXPR_TEMPLATES, cfg, sp) for cfg in G2.CONFIGS for sp in (False, True)}
     for n, (src, data) in enumerate(G2.data_argument_cases(r, chk.tier, denv_names)):
         stats["shaped_data_cases"] = stats.get("shaped_data_cases", 0) + 1
-        run_one(chk, denvs[G2.CONFIGS[n % len(G2.CONFIGS)]], src, data, stats,
+        run_one(chk, denvs[(G2.CONFIGS[n % len(G2.CONFIGS)], n % 2 == 0 or "tablerow" in src)], src, data, stats,
                 {"source": src, "data": safe_repr(data)[:600], "stream": "shaped data x argument positions"})
+
+    # ---- (d7b) `translations` (and the other names the i18n filters read from the context) bound to odd values
+    for n, (src, data) in enumerate(G2.translation_cases()):
+        stats["translation_variable_cases"] = stats.get("translation_variable_cases", 0) + 1
+        run_one(chk, denvs[(G2.CONFIGS[n % len(G2.CONFIGS)], False)], src, data, stats,
+                {"source": src, "data": safe_repr(data)[:300], "stream": "translations variable"})
 
     # ---- (d8) error decoration: errors raised inside partials and inherited templates that live in
     #      sub-directories, loaded by DictLoader / FileSystemLoader / CachingFileSystemLoader
@@ -554,6 +570,9 @@ def main(chk: C.Check, build: C.Build) -> None:
             cs.add(s, k, len(s), "", sh, "prefix")
         for (i, j, ins) in G.edits(r, s, 6 if thorough else 2):
             cs.add(s, i, j, ins, sh, "edit")
+    for s in G.long_index_sources():
+        cs.whole(s, False, "pool")
+        cs.whole(s, True, "pool")
     for _ in range(6000 if thorough else 400):
         cs.whole(G.g_random(r), r.random() < 0.2, "random")
     shared = {b for b, k in cs.uses().items() if k >= 3}
